@@ -186,7 +186,7 @@ class SubprocessTestCaseExecutor(TestCaseExecutor):
         """
         return min(
             self._maximum_test_execution_timeout,
-            self._test_execution_time_per_statement * test_case.size(),
+            self._test_execution_time_per_statement * max(test_case.size(), 1),
         )
 
     def _calculate_timeout_for_multiple(self, test_cases: tuple[tc.TestCase, ...]) -> float:
@@ -201,7 +201,7 @@ class SubprocessTestCaseExecutor(TestCaseExecutor):
         return min(
             self._maximum_test_execution_timeout * len(test_cases),
             sum(
-                self._test_execution_time_per_statement * test_case.size()
+                self._test_execution_time_per_statement * max(test_case.size(), 1)
                 for test_case in test_cases
             ),
         )
